@@ -139,7 +139,10 @@ pub fn opts_for(prop: &str) -> GenOpts {
             // with skips as well (seeded change C04-r3)
             o.w_skip = 4;
             o.extra_max = 3;
-            o.max_ops = 4;
+            // abandoned buffered chunks followed by further pulls on the same handle
+            o.w_buf = 30;
+            o.partial_pct = 45;
+            o.max_ops = 6;
             o.min_threads = 1;
         }
         "C05" => {
